@@ -40,15 +40,15 @@ Definition well_known (i : bytes) : option bytes :=
   if lbeq i (B "0") then Some (B "org.zbus.A") else if lbeq i (B "1") then Some (B "org.zbus.B") else None.
 
 (* ---- parsing the case; the driver's own bookkeeping: proxies (destination, path, interface) and requested names *)
-Record pstate := { proxies : list (N * (bytes * bytes * bytes)); names : list bytes }.
-Definition pstate0 : pstate := {| proxies := []; names := [] |}.
+Record dstate := { proxies : list (N * (bytes * bytes * bytes)); names : list bytes }.
+Definition dstate0 : dstate := {| proxies := []; names := [] |}.
 
 Fixpoint find_proxy (p : N) (l : list (N * (bytes * bytes * bytes))) : option (bytes * bytes * bytes) :=
   match l with [] => None | (k, v) :: r => if (k =? p) then Some v else find_proxy p r end.
 
 Definition is_unique (d : bytes) : bool := match d with c :: _ => beq c ":" | [] => false end.
 
-Definition signal_op (st : pstate) (h p : N) (member arg0 : option bytes) : option op :=
+Definition signal_op (st : dstate) (h p : N) (member arg0 : option bytes) : option op :=
   match find_proxy p (proxies st) with
   | Some (d, pa, ifc) =>
       Some (OSignal h p (if is_unique d then None else Some (noc_rule d)) (sig_rule d pa ifc member arg0))
@@ -57,7 +57,7 @@ Definition signal_op (st : pstate) (h p : N) (member arg0 : option bytes) : opti
 
 Definition member_tok (m : bytes) : option bytes := if lbeq m (B "*") then None else Some m.
 
-Definition parse_op (st : pstate) (w : bytes) : option (item * pstate) :=
+Definition parse_op (st : dstate) (w : bytes) : option (item * dstate) :=
   match w with
   | k :: rest =>
       if beq k "s" then
@@ -144,7 +144,7 @@ Definition parse_op (st : pstate) (w : bytes) : option (item * pstate) :=
   | [] => None
   end.
 
-Fixpoint parse_ops (st : pstate) (ws : list bytes) : option (list item) :=
+Fixpoint parse_ops (st : dstate) (ws : list bytes) : option (list item) :=
   match ws with
   | [] => Some []
   | w :: r =>
@@ -158,7 +158,7 @@ Definition parse_case (c : bytes) : option (list item) :=
   match words c with
   | t :: seed :: g :: ws =>
       if lbeq t (B "M") && (lbeq g (B "o") || lbeq g (B "e")) then
-        match N_of_dec seed with Some _ => parse_ops pstate0 ws | None => None end
+        match N_of_dec seed with Some _ => parse_ops dstate0 ws | None => None end
       else None
   | _ => None
   end.
